@@ -7,6 +7,7 @@ import json,os,re,subprocess,sys,threading,queue
 def sh(*a,**k): return subprocess.run(a,capture_output=True,text=True,**k)
 args=sys.argv[1:]; J=4
 FOCUS=os.environ.get('BENIGN_FOCUS')=='1'  # fewer checks per diff (see below)
+OWN=os.environ.get('BENIGN_OWN')=='1'  # only the check of the property the diff was written for
 if args[:1]==['-j']: J=int(args[1]); args=args[2:]
 P=json.load(open('/verif/props.json'))
 def pkg_of_func(f):
@@ -37,6 +38,7 @@ def worker(i):
                     fs=next(q['functions'] for q in P if q['id']==p)
                     return any(re.search(r'[.)]'+re.escape(fn)+r'(\$\d+)*$',f) for fn in fnames for f in fs) or any(f.endswith('*') for f in fs if pkg_of_func(f) in pk)
                 props=sorted(set([p for p in props if has(p)]+[name.split('/')[0]]))
+            if OWN: props=[name.split('/')[0]]
             r=sh('git','-C',WT,'apply',diff)
             if r.returncode!=0:
                 with lock: rows.append((name,'-','PATCH DOES NOT APPLY',r.stderr.strip()[:80]))
